@@ -1,8 +1,2146 @@
-//! stub — to be implemented
-use crate::common::{Ctx, Report};
+//! C09 — the main process's verdict to a client matches what the workers did.
+//!
+//! Two parts:
+//!
+//! * a reusable **hub lab** (`HubLab`, `FakeWorker`, `HubClient`, `Peer`): a real
+//!   `sozu::command::server::CommandHub` running in its own thread on a private unix command
+//!   socket, its workers being scripted fake workers (harness end of a `Channel` pair, each
+//!   backed by a dummy `sleep` child whose pid is what the hub SIGKILLs in `close_worker`);
+//! * the C09 check: fault enumeration over worker behaviours x verbs x concurrent clients,
+//!   judged by the verdict implication of the property statement.
+//!
+//! Everything is observed at the boundary: `Response`s read by scripted clients, what the
+//! scripted workers received and were told to answer, liveness of the hub thread.
 
-pub fn run(_ctx: &Ctx) -> Report {
-    let mut rep = Report::new("exploration", "not implemented");
-    rep.broken("check not implemented yet");
+use std::{
+    collections::{BTreeMap, BTreeSet, HashMap},
+    fs,
+    io::Write as _,
+    os::fd::{AsRawFd, IntoRawFd, RawFd},
+    os::unix::net::UnixStream as StdUnixStream,
+    os::unix::process::ExitStatusExt,
+    path::{Path, PathBuf},
+    process::{Child, Command, Stdio},
+    sync::{
+        Arc, Mutex,
+        atomic::{AtomicBool, AtomicU64, Ordering},
+        mpsc,
+    },
+    thread::JoinHandle,
+    time::{Duration, Instant},
+};
+
+use serde_json::{Value, json};
+use sozu::command::server::CommandHub;
+use sozu_command_lib::{
+    channel::{Channel, ChannelError},
+    config::Config,
+    proto::command::{
+        AddBackend, Cluster, ClusterInformation, ClusterInformations, ClusterMetrics, HardStop,
+        ListWorkers, QueryClustersHashes, QueryMetricsOptions, Request, Response, ResponseContent,
+        ResponseStatus, RunState, SocketAddress, Status, WorkerMetrics, WorkerRequest,
+        WorkerResponse, request::RequestType, response_content::ContentType,
+    },
+    ready::Ready,
+    scm_socket::ScmSocket,
+};
+
+use crate::common::{Ctx, PanicRec, Report, Rng, par::take_panics, par_cases};
+
+// =================================================================================================
+// Hub lab (pub, reusable by other hub-level checks)
+// =================================================================================================
+
+/// Harness end of a sozu `Channel`, driven non-blocking with our own `poll(2)` so that waits
+/// have exact deadlines (the channel's own blocking mode has a 100 ms granularity).
+pub struct Peer<Tx, Rx> {
+    pub ch: Option<Channel<Tx, Rx>>,
+    eof: bool,
+}
+
+pub enum Recv<T> {
+    Msg(T),
+    Timeout,
+    /// the other side closed the connection
+    Closed,
+    Error(String),
+}
+
+fn poll_fd(fd: RawFd, events: i16, timeout: Duration) -> i16 {
+    let mut p = libc::pollfd { fd, events, revents: 0 };
+    let ms = timeout.as_millis().min(60_000) as i32;
+    // SAFETY: one valid pollfd on the stack
+    let r = unsafe { libc::poll(&mut p, 1, ms.max(0)) };
+    if r > 0 { p.revents } else { 0 }
+}
+
+impl<Tx, Rx> Peer<Tx, Rx>
+where
+    Tx: std::fmt::Debug + prost::Message + Default,
+    Rx: std::fmt::Debug + prost::Message + Default,
+{
+    pub fn new(mut ch: Channel<Tx, Rx>) -> Self {
+        let _ = ch.nonblocking();
+        Peer { ch: Some(ch), eof: false }
+    }
+
+    pub fn is_closed(&self) -> bool {
+        self.ch.is_none()
+    }
+
+    /// frame and write one message (same framing code as sozu's own peers)
+    pub fn send(&mut self, msg: &Tx) -> Result<(), String> {
+        let Some(ch) = self.ch.as_mut() else {
+            return Err("channel closed".into());
+        };
+        ch.write_message(msg).map_err(|e| format!("write_message: {e}"))?;
+        let give_up = Instant::now() + Duration::from_secs(3);
+        loop {
+            ch.interest.insert(Ready::WRITABLE);
+            ch.readiness.insert(Ready::WRITABLE);
+            match ch.writable() {
+                Ok(_) => {}
+                Err(e) => return Err(format!("writable: {e}")),
+            }
+            if ch.back_buf.available_data() == 0 {
+                return Ok(());
+            }
+            if Instant::now() > give_up {
+                return Err("send: peer does not drain its socket".into());
+            }
+            poll_fd(ch.sock.as_raw_fd(), libc::POLLOUT, Duration::from_millis(50));
+        }
+    }
+
+    /// `n` copies of one message, framed individually, written with as few syscalls as possible
+    pub fn send_burst(&mut self, msg: &Tx, n: usize) -> Result<(), String> {
+        let Some(ch) = self.ch.as_mut() else {
+            return Err("channel closed".into());
+        };
+        for _ in 0..n.saturating_sub(1) {
+            ch.write_message(msg).map_err(|e| format!("write_message: {e}"))?;
+        }
+        self.send(msg)
+    }
+
+    /// next message, waiting until `deadline` at most
+    pub fn recv_until(&mut self, deadline: Instant) -> Recv<Rx> {
+        let Some(ch) = self.ch.as_mut() else {
+            return Recv::Closed;
+        };
+        loop {
+            match ch.read_message() {
+                Ok(m) => return Recv::Msg(m),
+                Err(ChannelError::NothingRead) => {}
+                Err(e) => return Recv::Error(format!("read_message: {e}")),
+            }
+            if self.eof {
+                return Recv::Closed;
+            }
+            let now = Instant::now();
+            if now >= deadline {
+                return Recv::Timeout;
+            }
+            let rev = poll_fd(ch.sock.as_raw_fd(), libc::POLLIN, deadline - now);
+            if rev == 0 {
+                continue;
+            }
+            ch.interest.insert(Ready::READABLE);
+            ch.readiness.insert(Ready::READABLE);
+            match ch.readable() {
+                Ok(_) => {}
+                Err(ChannelError::NoByteToRead) => self.eof = true,
+                Err(ChannelError::Read(e)) => {
+                    // ECONNRESET and friends: the peer is gone
+                    let _ = e;
+                    self.eof = true;
+                }
+                Err(e) => return Recv::Error(format!("readable: {e}")),
+            }
+        }
+    }
+
+    /// close the connection (the peer sees EOF / HUP)
+    pub fn close(&mut self) {
+        if let Some(ch) = self.ch.take() {
+            // SAFETY: fd owned by `ch`, still open here
+            unsafe { libc::shutdown(ch.sock.as_raw_fd(), libc::SHUT_RDWR) };
+            drop(ch);
+        }
+    }
+}
+
+/// Harness side of one registered worker.
+pub struct FakeWorker {
+    pub id: u32,
+    /// pid of the dummy child registered for this worker in the hub
+    pub pid: i32,
+    pub chan: Peer<WorkerResponse, WorkerRequest>,
+    _scm_peer: StdUnixStream,
+}
+
+impl FakeWorker {
+    pub fn recv_until(&mut self, deadline: Instant) -> Recv<WorkerRequest> {
+        self.chan.recv_until(deadline)
+    }
+    pub fn send(&mut self, r: &WorkerResponse) -> Result<(), String> {
+        self.chan.send(r)
+    }
+    pub fn close(&mut self) {
+        self.chan.close()
+    }
+}
+
+/// A command-socket client, framed exactly like `sozu::ctl` (`Channel<Request, Response>`).
+pub struct HubClient {
+    pub chan: Peer<Request, Response>,
+}
+
+impl HubClient {
+    pub fn connect(sock_path: &str) -> Result<HubClient, String> {
+        let ch: Channel<Request, Response> =
+            Channel::from_path(sock_path, 16_384, 2_000_000).map_err(|e| format!("connect {sock_path}: {e}"))?;
+        Ok(HubClient { chan: Peer::new(ch) })
+    }
+    pub fn send(&mut self, r: RequestType) -> Result<(), String> {
+        let req: Request = r.into();
+        self.chan.send(&req)
+    }
+    pub fn recv_until(&mut self, deadline: Instant) -> Recv<Response> {
+        self.chan.recv_until(deadline)
+    }
+    /// send and read until the final (non-Processing) response; returns (processing, final)
+    pub fn request(&mut self, r: RequestType, max_wait: Duration) -> Result<(Vec<Response>, Option<Response>), String> {
+        self.send(r)?;
+        let deadline = Instant::now() + max_wait;
+        let mut processing = Vec::new();
+        loop {
+            match self.recv_until(deadline) {
+                Recv::Msg(m) => {
+                    if m.status == ResponseStatus::Processing as i32 {
+                        processing.push(m);
+                    } else {
+                        return Ok((processing, Some(m)));
+                    }
+                }
+                Recv::Timeout => return Ok((processing, None)),
+                Recv::Closed => return Err("hub closed the client connection".into()),
+                Recv::Error(e) => return Err(e),
+            }
+        }
+    }
+}
+
+pub struct HubLab {
+    pub sock_path: String,
+    pub run_dir: PathBuf,
+    pub thread_name: String,
+    pub worker_timeout: Duration,
+    /// the configuration the hub runs with
+    pub config: Config,
+    workers: Vec<FakeWorker>,
+    children: Vec<Child>,
+    hub_side_fds: Vec<RawFd>,
+    join: Option<JoinHandle<()>>,
+    exited: Arc<AtomicBool>,
+    _dir_fd: Option<fs::File>,
+}
+
+#[derive(Debug, Default)]
+pub struct ShutdownReport {
+    /// the hub thread terminated (by itself or on the lab's stop request)
+    pub hub_exited: bool,
+    /// `run()` had already returned before the lab asked it to stop
+    pub exited_before_stop: bool,
+    pub panics: Vec<PanicRec>,
+    /// per worker: the dummy child was found dead (SIGKILL) before the lab killed it
+    pub killed_by_hub: Vec<bool>,
+    pub notes: Vec<String>,
+}
+
+static LAB_COUNTER: AtomicU64 = AtomicU64::new(0);
+
+impl HubLab {
+    /// Start a hub with `n_workers` scripted workers. `tweak` may adjust the `Config`
+    /// (`worker_count = 0` and `worker_automatic_restart = false` are enforced afterwards, or
+    /// the hub would fork/exec real workers); `setup` runs inside the hub thread on the
+    /// constructed hub before `run()` (e.g. to seed `hub.server.state`).
+    pub fn start_with(
+        root: &Path,
+        n_workers: usize,
+        worker_timeout_s: u32,
+        tweak: impl FnOnce(&mut Config),
+        setup: impl FnOnce(&mut CommandHub) + Send + 'static,
+    ) -> Result<HubLab, String> {
+        let n = LAB_COUNTER.fetch_add(1, Ordering::SeqCst);
+        let run_dir = root.join(format!("build/run-C09-{}-{}", std::process::id(), n));
+        fs::create_dir_all(&run_dir).map_err(|e| format!("mkdir {}: {e}", run_dir.display()))?;
+        let mut dir_fd = None;
+        let mut sock_path = run_dir.join("sock").to_string_lossy().into_owned();
+        if sock_path.len() > 100 {
+            // sun_path is 108 bytes: go through a short /proc/self/fd alias of the directory
+            let d = fs::File::open(&run_dir).map_err(|e| format!("open run dir: {e}"))?;
+            sock_path = format!("/proc/self/fd/{}/sock", d.as_raw_fd());
+            dir_fd = Some(d);
+        }
+        let cfg_path = run_dir.join("c.toml");
+        fs::write(
+            &cfg_path,
+            format!(
+                "command_socket = \"./sock\"\nworker_count = 0\nworker_automatic_restart = false\nworker_timeout = {worker_timeout_s}\nlog_level = \"off\"\nlog_target = \"stdout\"\ndisable_cluster_metrics = false\nactivate_listeners = false\n"
+            ),
+        )
+        .map_err(|e| format!("write config: {e}"))?;
+        let mut config = Config::load_from_path(&cfg_path.to_string_lossy()).map_err(|e| format!("load config: {e}"))?;
+        tweak(&mut config);
+        config.worker_count = 0;
+        config.worker_automatic_restart = false;
+        let worker_timeout = Duration::from_secs(config.worker_timeout as u64);
+
+        let mut children = Vec::new();
+        for _ in 0..n_workers {
+            match Command::new("sleep")
+                .arg("100000")
+                .stdin(Stdio::null())
+                .stdout(Stdio::null())
+                .stderr(Stdio::null())
+                .spawn()
+            {
+                Ok(c) => children.push(c),
+                Err(e) => {
+                    for mut c in children {
+                        let _ = c.kill();
+                        let _ = c.wait();
+                    }
+                    let _ = fs::remove_dir_all(&run_dir);
+                    return Err(format!("spawn dummy child: {e}"));
+                }
+            }
+        }
+        let pids: Vec<i32> = children.iter().map(|c| c.id() as i32).collect();
+
+        let thread_name = format!("c09-hub-{}-{}", std::process::id(), n);
+        let exited = Arc::new(AtomicBool::new(false));
+        type Ends = Vec<(u32, i32, Channel<WorkerResponse, WorkerRequest>, StdUnixStream, RawFd)>;
+        let (tx, rx) = mpsc::channel::<Result<Ends, String>>();
+        let join = {
+            let sock_path = sock_path.clone();
+            let config = config.clone();
+            let exited = exited.clone();
+            let pids = pids.clone();
+            std::thread::Builder::new()
+                .name(thread_name.clone())
+                .spawn(move || {
+                    struct Flag(Arc<AtomicBool>);
+                    impl Drop for Flag {
+                        fn drop(&mut self) {
+                            self.0.store(true, Ordering::SeqCst);
+                        }
+                    }
+                    let _flag = Flag(exited);
+                    let build = || -> Result<(CommandHub, Ends), String> {
+                        let listener =
+                            mio::net::UnixListener::bind(&sock_path).map_err(|e| format!("bind {sock_path}: {e}"))?;
+                        let buf = config.command_buffer_size;
+                        let max = config.max_command_buffer_size;
+                        let mut hub = CommandHub::new(listener, config, "/nonexistent/sozu".to_owned())
+                            .map_err(|e| format!("CommandHub::new: {e}"))?;
+                        let mut ends = Vec::new();
+                        for (i, pid) in pids.iter().enumerate() {
+                            let (hub_end, worker_end): (
+                                Channel<WorkerRequest, WorkerResponse>,
+                                Channel<WorkerResponse, WorkerRequest>,
+                            ) = Channel::generate_nonblocking(buf, max).map_err(|e| format!("channel pair: {e}"))?;
+                            let (scm_hub, scm_worker) = StdUnixStream::pair().map_err(|e| format!("scm pair: {e}"))?;
+                            let scm_fd = scm_hub.into_raw_fd();
+                            let scm = ScmSocket::new(scm_fd).map_err(|e| format!("ScmSocket::new: {e}"))?;
+                            hub.server
+                                .register_worker(i as u32, *pid, hub_end, scm)
+                                .map_err(|e| format!("register_worker: {e}"))?;
+                            ends.push((i as u32, *pid, worker_end, scm_worker, scm_fd));
+                        }
+                        Ok((hub, ends))
+                    };
+                    match build() {
+                        Ok((mut hub, ends)) => {
+                            // sozu's logger is thread-local and prints errors to stdout when
+                            // nobody initialised it: silence it for this hub thread
+                            sozu_command_lib::logging::LOGGER.with(|l| {
+                                l.borrow_mut().set_directives(sozu_command_lib::logging::parse_logging_spec("off").0)
+                            });
+                            setup(&mut hub);
+                            let _ = tx.send(Ok(ends));
+                            let _ = hub.run();
+                        }
+                        Err(e) => {
+                            let _ = tx.send(Err(e));
+                        }
+                    }
+                })
+                .map_err(|e| format!("spawn hub thread: {e}"))?
+        };
+        let mut lab = HubLab {
+            sock_path,
+            run_dir,
+            thread_name,
+            worker_timeout,
+            config,
+            workers: Vec::new(),
+            children,
+            hub_side_fds: Vec::new(),
+            join: Some(join),
+            exited,
+            _dir_fd: dir_fd,
+        };
+        match rx.recv_timeout(Duration::from_secs(20)) {
+            Ok(Ok(ends)) => {
+                for (id, pid, ch, scm_peer, fd) in ends {
+                    lab.hub_side_fds.push(fd);
+                    lab.workers.push(FakeWorker { id, pid, chan: Peer::new(ch), _scm_peer: scm_peer });
+                }
+                Ok(lab)
+            }
+            Ok(Err(e)) => {
+                let _ = lab.shutdown();
+                Err(e)
+            }
+            Err(_) => {
+                let rep = lab.shutdown();
+                Err(format!("hub thread did not come up: {:?}", rep.panics))
+            }
+        }
+    }
+
+    pub fn start(root: &Path, n_workers: usize, worker_timeout_s: u32, tweak: impl FnOnce(&mut Config)) -> Result<HubLab, String> {
+        Self::start_with(root, n_workers, worker_timeout_s, tweak, |_| {})
+    }
+
+    /// hand the scripted workers to the caller (each can move to its own thread)
+    pub fn take_workers(&mut self) -> Vec<FakeWorker> {
+        std::mem::take(&mut self.workers)
+    }
+
+    pub fn worker_pids(&self) -> Vec<i32> {
+        self.children.iter().map(|c| c.id() as i32).collect()
+    }
+
+    pub fn client(&self) -> Result<HubClient, String> {
+        HubClient::connect(&self.sock_path)
+    }
+
+    pub fn hub_thread_finished(&self) -> bool {
+        self.exited.load(Ordering::SeqCst)
+    }
+
+    /// Stop the hub thread (closing the workers still held by the lab, then a HardStop from a
+    /// fresh client), join it, collect its panics, kill and reap the dummy children, remove the
+    /// run directory. Workers handed out with `take_workers` must have been dropped/closed by
+    /// the caller (otherwise the stop waits one worker timeout for them).
+    pub fn shutdown(&mut self) -> ShutdownReport {
+        let mut rep = ShutdownReport::default();
+        if self.join.is_none() {
+            rep.hub_exited = true;
+            return rep;
+        }
+        // `run()` returning and the thread's exit flag are a few scheduler quanta apart: give a
+        // hub that is on its way out the time to get there before deciding who stopped it
+        let t0 = Instant::now();
+        while !self.hub_thread_finished() && t0.elapsed() < Duration::from_millis(if self.workers.is_empty() { 150 } else { 0 }) {
+            std::thread::sleep(Duration::from_millis(2));
+        }
+        rep.exited_before_stop = self.hub_thread_finished();
+        if rep.exited_before_stop && t0.elapsed() > Duration::from_millis(1) {
+            rep.notes.push(format!("hub thread exit observed {} ms after shutdown began", t0.elapsed().as_millis()));
+        }
+        for w in self.workers.iter_mut() {
+            w.close();
+        }
+        self.workers.clear();
+        if !self.hub_thread_finished() {
+            std::thread::sleep(Duration::from_millis(20));
+            for attempt in 0..2 {
+                if self.hub_thread_finished() {
+                    break;
+                }
+                match self.client() {
+                    Ok(mut c) => {
+                        let wait = self.worker_timeout + Duration::from_secs(2);
+                        match c.request(RequestType::HardStop(HardStop {}), wait) {
+                            Ok((_, Some(_))) => {}
+                            Ok((_, None)) => rep.notes.push(format!("stop attempt {attempt}: no answer to HardStop")),
+                            Err(e) => rep.notes.push(format!("stop attempt {attempt}: {e}")),
+                        }
+                        let until = Instant::now() + Duration::from_secs(3);
+                        while !self.hub_thread_finished() && Instant::now() < until {
+                            std::thread::sleep(Duration::from_millis(5));
+                        }
+                    }
+                    Err(e) => {
+                        rep.notes.push(format!("stop attempt {attempt}: {e}"));
+                        std::thread::sleep(Duration::from_millis(100));
+                    }
+                }
+            }
+        }
+        if self.hub_thread_finished() {
+            if let Some(j) = self.join.take() {
+                let _ = j.join();
+            }
+            rep.hub_exited = true;
+        } else {
+            // cannot kill a thread: leave it detached; it dies with the process
+            rep.notes.push("hub thread could not be stopped; detached".into());
+            self.join.take();
+        }
+        rep.panics = take_panics(&self.thread_name);
+        for mut c in std::mem::take(&mut self.children) {
+            let mut killed = false;
+            match c.try_wait() {
+                Ok(Some(st)) => killed = st.signal() == Some(libc::SIGKILL),
+                _ => {
+                    let _ = c.kill();
+                    if rep.hub_exited {
+                        let _ = c.wait();
+                    } else {
+                        // do not reap: a still-running hub must never find this pid reused
+                        std::mem::forget(c);
+                    }
+                }
+            }
+            rep.killed_by_hub.push(killed);
+        }
+        if rep.hub_exited {
+            for fd in std::mem::take(&mut self.hub_side_fds) {
+                // SAFETY: fds created by the lab for the hub's ScmSockets, which never close them
+                unsafe { libc::close(fd) };
+            }
+        }
+        let _ = fs::remove_dir_all(&self.run_dir);
+        rep
+    }
+}
+
+impl Drop for HubLab {
+    fn drop(&mut self) {
+        if self.join.is_some() || !self.children.is_empty() {
+            let _ = self.shutdown();
+        }
+    }
+}
+
+// =================================================================================================
+// C09 scenario model
+// =================================================================================================
+
+const WORKER_TIMEOUT_S: u32 = 1;
+const SLACK: Duration = Duration::from_millis(3000);
+const LATE_AFTER_TIMEOUT: Duration = Duration::from_millis(500);
+/// unknown-id answers per burst of a talkative worker
+const CHATTER_BURST: usize = 3000;
+/// scenarios with two overlapping deadlines (see gen_scenario)
+const OVERLAP_CASES: u64 = 8;
+
+#[derive(Clone, Copy, Debug, PartialEq, Eq, PartialOrd, Ord, Hash)]
+enum BehClass {
+    Ok,
+    Failure,
+    Silent,
+    Close,
+    DupOk,
+    LateOk,
+    Processing,
+    UnknownId,
+}
+
+const CLASSES: [BehClass; 8] = [
+    BehClass::Ok,
+    BehClass::Failure,
+    BehClass::Silent,
+    BehClass::Close,
+    BehClass::DupOk,
+    BehClass::LateOk,
+    BehClass::Processing,
+    BehClass::UnknownId,
+];
+
+impl BehClass {
+    fn name(self) -> &'static str {
+        match self {
+            BehClass::Ok => "ok",
+            BehClass::Failure => "failure",
+            BehClass::Silent => "silent",
+            BehClass::Close => "close",
+            BehClass::DupOk => "dup_ok",
+            BehClass::LateOk => "late_ok",
+            BehClass::Processing => "processing_then_final",
+            BehClass::UnknownId => "unknown_id",
+        }
+    }
+}
+
+/// what one worker does with one client request
+#[derive(Clone, Debug)]
+struct Beh {
+    class: BehClass,
+    /// delay of the (first) final answer / of the close, ms after receipt
+    delay_ms: u64,
+    /// DupOk: gap before the second Ok; Processing: number of notices
+    k: u64,
+    /// Processing: the final is a failure
+    final_fail: bool,
+    /// multi-message verbs: index of the message the behaviour applies to (others: Ok at once)
+    target_msg: usize,
+}
+
+impl Beh {
+    fn json(&self) -> Value {
+        json!({"class": self.class.name(), "delay_ms": self.delay_ms, "k": self.k,
+               "final_failure": self.final_fail, "on_message": self.target_msg})
+    }
+    /// the script sends a successful final answer for every message, in time
+    fn scripted_ok_in_time(&self) -> bool {
+        match self.class {
+            BehClass::Ok | BehClass::DupOk => true,
+            BehClass::Processing => !self.final_fail,
+            _ => false,
+        }
+    }
+}
+
+#[derive(Clone, Copy, Debug, PartialEq, Eq, PartialOrd, Ord, Hash)]
+enum Verb {
+    AddCluster,
+    AddBackend,
+    QueryClusterById,
+    QueryClustersHashes,
+    QueryMetrics,
+    Status,
+    LoadState,
+    Reload,
+    HardStop,
+}
+
+impl Verb {
+    fn family(self) -> &'static str {
+        match self {
+            Verb::AddCluster | Verb::AddBackend => "mutating",
+            Verb::QueryClusterById | Verb::QueryClustersHashes => "query",
+            Verb::QueryMetrics => "metrics",
+            Verb::Status => "status",
+            Verb::LoadState => "load_state",
+            Verb::Reload => "reload",
+            Verb::HardStop => "hard_stop",
+        }
+    }
+    fn name(self) -> &'static str {
+        match self {
+            Verb::AddCluster => "AddCluster",
+            Verb::AddBackend => "AddBackend",
+            Verb::QueryClusterById => "QueryClusterById",
+            Verb::QueryClustersHashes => "QueryClustersHashes",
+            Verb::QueryMetrics => "QueryMetrics",
+            Verb::Status => "Status",
+            Verb::LoadState => "LoadState",
+            Verb::Reload => "ReloadConfiguration",
+            Verb::HardStop => "HardStop",
+        }
+    }
+    /// verbs whose worker-side request carries nothing that identifies the client request: at
+    /// most one of each kind is in flight per hub
+    fn untagged(self) -> bool {
+        matches!(self, Verb::Status | Verb::QueryClustersHashes | Verb::HardStop)
+    }
+}
+
+const FAMILY_VERBS: [Verb; 7] = [
+    Verb::AddCluster,
+    Verb::QueryClusterById,
+    Verb::QueryMetrics,
+    Verb::Status,
+    Verb::LoadState,
+    Verb::Reload,
+    Verb::HardStop,
+];
+
+#[derive(Clone, Debug)]
+struct Req {
+    verb: Verb,
+    tag: String,
+    /// number of worker-side messages one worker receives for this request
+    n_msgs: usize,
+    /// per worker
+    beh: Vec<Beh>,
+    /// pause before sending, ms
+    pre_delay_ms: u64,
+}
+
+#[derive(Clone, Debug)]
+struct Scenario {
+    case: u64,
+    seed: u64,
+    workers: usize,
+    /// clients[c] = requests sent in sequence on one connection
+    clients: Vec<Vec<Req>>,
+    /// a stop verb sent by a last client once all others are done
+    stop: Option<Req>,
+    exhaustive_block: bool,
+    /// workers whose script closes the channel before any request (isolated re-runs only)
+    pre_closed: Vec<usize>,
+    /// workers that, besides following their script, keep sending answers with unknown ids
+    /// while a client request is in flight
+    chatty: Vec<usize>,
+}
+
+fn req_json(r: &Req) -> Value {
+    json!({"verb": r.verb.name(), "tag": r.tag, "worker_messages": r.n_msgs, "pre_delay_ms": r.pre_delay_ms,
+           "behaviours_by_worker": r.beh.iter().map(|b| b.json()).collect::<Vec<_>>()})
+}
+
+fn scenario_json(s: &Scenario) -> Value {
+    json!({"case": s.case, "seed": s.seed, "workers": s.workers, "worker_timeout_s": WORKER_TIMEOUT_S,
+           "clients": s.clients.iter().map(|c| c.iter().map(req_json).collect::<Vec<_>>()).collect::<Vec<_>>(),
+           "stop": s.stop.as_ref().map(req_json), "workers_closed_before_any_request": s.pre_closed,
+           "workers_flooding_unknown_id_answers": s.chatty})
+}
+
+fn gen_beh(rng: &mut Rng, class: BehClass, n_msgs: usize) -> Beh {
+    let delay_ms = *rng.pick(&[0u64, 0, 20, 60, 150, 300]);
+    let (k, final_fail) = match class {
+        BehClass::DupOk => (*rng.pick(&[0u64, 10, 80]), false),
+        BehClass::Processing => (rng.range(1, 3), rng.chance(1, 4)),
+        _ => (0, false),
+    };
+    Beh {
+        class,
+        delay_ms,
+        k,
+        final_fail,
+        target_msg: if n_msgs > 1 && rng.bool() { n_msgs - 1 } else { 0 },
+    }
+}
+
+fn n_msgs_for(verb: Verb, rng: &mut Rng) -> usize {
+    match verb {
+        Verb::LoadState => rng.urange(1, 3),
+        Verb::Reload => 2, // AddCluster + AddBackend generated from the cluster section
+        _ => 1,
+    }
+}
+
+const EXHAUSTIVE_PER_FAMILY: u64 = 8 + 64;
+
+fn exhaustive_block_len() -> u64 {
+    FAMILY_VERBS.len() as u64 * EXHAUSTIVE_PER_FAMILY
+}
+
+/// case -> scenario, a pure function of (seed, case, plan sizes)
+fn gen_scenario(seed: u64, case: u64, exhaustive_reps: u64, race_cases: u64) -> Scenario {
+    let mut rng = Rng::for_case(seed, 9, case);
+    let block = exhaustive_block_len();
+    if case < block * exhaustive_reps {
+        let idx = case % block;
+        let fam = (idx / EXHAUSTIVE_PER_FAMILY) as usize;
+        let a = idx % EXHAUSTIVE_PER_FAMILY;
+        let classes: Vec<BehClass> = if a < 8 {
+            vec![CLASSES[a as usize]]
+        } else {
+            vec![CLASSES[((a - 8) / 8) as usize], CLASSES[((a - 8) % 8) as usize]]
+        };
+        let mut verb = FAMILY_VERBS[fam];
+        if case >= block {
+            // later repetitions vary the verb inside the family
+            verb = match verb {
+                Verb::AddCluster if rng.bool() => Verb::AddBackend,
+                Verb::QueryClusterById if rng.bool() => Verb::QueryClustersHashes,
+                v => v,
+            };
+        }
+        let n_msgs = n_msgs_for(verb, &mut rng);
+        let beh: Vec<Beh> = classes.iter().map(|c| gen_beh(&mut rng, *c, n_msgs)).collect();
+        let req = Req { verb, tag: format!("t{case}c0r0x"), n_msgs, beh, pre_delay_ms: 0 };
+        let (clients, stop) = if verb == Verb::HardStop { (vec![], Some(req)) } else { (vec![vec![req]], None) };
+        return Scenario { case, seed, workers: classes.len(), clients, stop, exhaustive_block: true, pre_closed: vec![], chatty: vec![] };
+    }
+    let mut case_in_rest = case - block * exhaustive_reps;
+    if case_in_rest < OVERLAP_CASES {
+        // overlap block: request A has one worker that answers 500+ ms after the worker timeout,
+        // request B (another client, 0.6-0.8 s later) has a mute worker, so that B's later
+        // deadline is pending when A's passes and nothing else wakes the hub in between
+        let workers = rng.urange(1, 3);
+        let verb_a = [Verb::AddCluster, Verb::QueryClusterById, Verb::QueryMetrics, Verb::AddBackend][(case_in_rest % 4) as usize];
+        let verb_b = *rng.pick(&[Verb::AddCluster, Verb::QueryClusterById, Verb::QueryMetrics]);
+        let late_worker = rng.usize_below(workers);
+        let beh_a = (0..workers)
+            .map(|w| Beh { class: if w == late_worker { BehClass::LateOk } else { BehClass::Ok }, delay_ms: *rng.pick(&[0u64, 20, 60]), k: 0, final_fail: false, target_msg: 0 })
+            .collect();
+        let mute_worker = rng.usize_below(workers);
+        let beh_b = (0..workers)
+            .map(|w| Beh { class: if w == mute_worker { BehClass::Silent } else { BehClass::Ok }, delay_ms: 0, k: 0, final_fail: false, target_msg: 0 })
+            .collect();
+        let a = Req { verb: verb_a, tag: format!("t{case}c0r0x"), n_msgs: 1, beh: beh_a, pre_delay_ms: 0 };
+        let b = Req { verb: verb_b, tag: format!("t{case}c1r0x"), n_msgs: 1, beh: beh_b, pre_delay_ms: rng.range(600, 800) };
+        return Scenario { case, seed, workers, clients: vec![vec![a], vec![b]], stop: None, exhaustive_block: false, pre_closed: vec![], chatty: vec![] };
+    }
+    case_in_rest -= OVERLAP_CASES;
+    if case_in_rest < race_cases {
+        // race block: well-behaved but very talkative workers (a stream of answers with unknown
+        // ids around each dispatch, every real request acknowledged at once), so that worker
+        // answers reach the hub in the same event-loop iteration that dispatched the request
+        let workers = rng.urange(1, 2);
+        let n_reqs = rng.urange(6, 8);
+        let mut reqs = Vec::new();
+        for r in 0..n_reqs {
+            let verb = *rng.pick(&[Verb::AddCluster, Verb::LoadState, Verb::LoadState, Verb::LoadState, Verb::Reload, Verb::Reload, Verb::QueryClusterById]);
+            let n_msgs = if verb == Verb::LoadState { 3 } else { n_msgs_for(verb, &mut rng) };
+            let beh = (0..workers).map(|_| Beh { class: BehClass::Ok, delay_ms: 0, k: 0, final_fail: false, target_msg: 0 }).collect();
+            reqs.push(Req { verb, tag: format!("t{case}c0r{r}x"), n_msgs, beh, pre_delay_ms: rng.range(0, 10) });
+        }
+        return Scenario { case, seed, workers, clients: vec![reqs], stop: None, exhaustive_block: false, pre_closed: vec![], chatty: (0..workers).collect() };
+    }
+    // sampled part: mostly W in 3..4, 1..8 concurrent clients, 1..3 requests each
+    let workers = match rng.below(10) {
+        0 => 1,
+        1 | 2 => 2,
+        3..=6 => 3,
+        _ => 4,
+    };
+    let n_clients = match rng.below(8) {
+        0 => 1,
+        1 | 2 => 2,
+        3 | 4 => rng.urange(3, 4),
+        _ => rng.urange(5, 8),
+    };
+    // how hostile the workers are in this case
+    let ok_weight = *rng.pick(&[50u64, 70, 85, 95]);
+    let pick_class = |rng: &mut Rng| -> BehClass {
+        if rng.below(100) < ok_weight { BehClass::Ok } else { CLASSES[rng.urange(1, 7)] }
+    };
+    let mut clients = Vec::new();
+    for c in 0..n_clients {
+        let n_reqs = rng.urange(1, 3);
+        let mut reqs = Vec::new();
+        for r in 0..n_reqs {
+            let verb = match rng.below(20) {
+                0..=4 => Verb::AddCluster,
+                5..=7 => Verb::AddBackend,
+                8..=10 => Verb::QueryClusterById,
+                11 => Verb::QueryClustersHashes,
+                12..=13 => Verb::QueryMetrics,
+                14..=15 => Verb::Status,
+                16..=17 => Verb::LoadState,
+                _ => Verb::Reload,
+            };
+            let n_msgs = n_msgs_for(verb, &mut rng);
+            let mut beh = Vec::new();
+            for _ in 0..workers {
+                let mut class = pick_class(&mut rng);
+                // an unbounded verb with a mute worker costs a full deadline twice: keep them rarer
+                if matches!(verb, Verb::LoadState | Verb::Reload) && class != BehClass::Ok && rng.chance(2, 3) {
+                    class = BehClass::Ok;
+                }
+                beh.push(gen_beh(&mut rng, class, n_msgs));
+            }
+            reqs.push(Req { verb, tag: format!("t{case}c{c}r{r}x"), n_msgs, beh, pre_delay_ms: *rng.pick(&[0u64, 0, 10, 50, 120, 400, 900]) });
+        }
+        clients.push(reqs);
+    }
+    let stop = if rng.chance(1, 3) {
+        let beh = (0..workers).map(|_| { let c = pick_class(&mut rng); gen_beh(&mut rng, c, 1) }).collect();
+        Some(Req { verb: Verb::HardStop, tag: format!("t{case}c{n_clients}r0x"), n_msgs: 1, beh, pre_delay_ms: 0 })
+    } else {
+        None
+    };
+    Scenario { case, seed, workers, clients, stop, exhaustive_block: false, pre_closed: vec![], chatty: vec![] }
+}
+
+// =================================================================================================
+// Running one scenario
+// =================================================================================================
+
+#[derive(Clone, Debug)]
+struct Msg {
+    at_ms: u64,
+    status: i32,
+    message: String,
+    content: Option<ResponseContent>,
+}
+
+#[derive(Clone, Debug, Default)]
+struct ReqObs {
+    sent_at: Option<Instant>,
+    msgs: Vec<Msg>,
+    /// index in msgs of the first final answer
+    final_idx: Option<usize>,
+    final_at: Option<Instant>,
+    /// harness-side trouble on this request (connect/send/read error)
+    harness_error: Option<String>,
+    connection_closed_by_hub: bool,
+    skipped: bool,
+}
+
+/// what a scripted worker saw and did for one client request
+#[derive(Clone, Debug, Default)]
+struct WorkerSide {
+    received: usize,
+    first_received_at: Option<Instant>,
+    /// number of successful final answers written (instant taken before the write)
+    ok_sent: Vec<Instant>,
+    fail_sent: Vec<Instant>,
+    /// duplicate or late successful answers (not acknowledgements in the sense of the oracle)
+    extra_ok_sent: Vec<Instant>,
+    unknown_request_ids: usize,
+}
+
+#[derive(Default)]
+struct Shared {
+    /// worker-side key (tag, or verb name for untagged verbs) -> (client, req)
+    registry: HashMap<String, (usize, usize)>,
+    /// (client, req, worker) -> what the worker saw
+    worker_side: HashMap<(usize, usize, usize), WorkerSide>,
+    /// worker -> instant at which the script closed its channel
+    closed_at: HashMap<usize, Instant>,
+    unroutable_worker_requests: Vec<String>,
+    worker_errors: Vec<String>,
+    chatter_sent: u64,
+}
+
+#[derive(Clone, Copy)]
+enum Rec {
+    No,
+    Ok(usize, usize),
+    Fail(usize, usize),
+    ExtraOk(usize, usize),
+}
+
+enum Action {
+    Send(WorkerResponse, Rec),
+    Close,
+}
+
+fn worker_key(req: &WorkerRequest) -> Option<String> {
+    match req.content.request_type.as_ref()? {
+        RequestType::AddCluster(c) => Some(c.cluster_id.clone()),
+        RequestType::AddBackend(b) => Some(b.cluster_id.clone()),
+        RequestType::QueryClusterById(x) => Some(x.clone()),
+        RequestType::QueryMetrics(o) => o.cluster_ids.first().cloned(),
+        RequestType::Status(_) => Some("Status".into()),
+        RequestType::QueryClustersHashes(_) => Some("QueryClustersHashes".into()),
+        RequestType::HardStop(_) => Some("HardStop".into()),
+        _ => None,
+    }
+}
+
+fn content_for(verb: Verb, tag: &str) -> Option<ResponseContent> {
+    match verb {
+        Verb::QueryClusterById => Some(
+            ContentType::Clusters(ClusterInformations {
+                vec: vec![ClusterInformation {
+                    configuration: Some(Cluster { cluster_id: tag.to_owned(), ..Default::default() }),
+                    ..Default::default()
+                }],
+            })
+            .into(),
+        ),
+        Verb::QueryMetrics => Some(
+            ContentType::WorkerMetrics(WorkerMetrics {
+                proxy: BTreeMap::new(),
+                clusters: [(tag.to_owned(), ClusterMetrics::default())].into_iter().collect(),
+            })
+            .into(),
+        ),
+        _ => None,
+    }
+}
+
+fn resp(id: &str, status: ResponseStatus, message: String, content: Option<ResponseContent>) -> WorkerResponse {
+    WorkerResponse { id: id.to_owned(), status: status as i32, message, content }
+}
+
+/// the scripted worker: answers every request per the scenario, until told to stop
+fn worker_loop(
+    mut w: FakeWorker,
+    widx: usize,
+    scenario: &Scenario,
+    shared: &Mutex<Shared>,
+    stop: &AtomicBool,
+    chatter_on: &AtomicU64,
+    timeout: Duration,
+) {
+    let chatty = scenario.chatty.contains(&widx);
+    let mut chatter_sent = 0u64;
+    let mut schedule: Vec<(Instant, Action)> = Vec::new();
+    if scenario.pre_closed.contains(&widx) {
+        schedule.push((Instant::now(), Action::Close));
+    }
+    let mut draining_until: Option<Instant> = None;
+    loop {
+        if draining_until.is_none() && stop.load(Ordering::SeqCst) {
+            // the case is over: keep reading a little so that every request the hub dispatched
+            // is seen (and counted as received) even if its answer no longer matters
+            draining_until = Some(Instant::now() + Duration::from_millis(40));
+        }
+        if let Some(t) = draining_until {
+            if Instant::now() >= t {
+                break;
+            }
+        }
+        // run what is due
+        let now = Instant::now();
+        let mut i = 0;
+        while i < schedule.len() {
+            if schedule[i].0 <= now {
+                let (_, action) = schedule.remove(i);
+                match action {
+                    Action::Send(r, rec) => {
+                        let before = Instant::now();
+                        if w.chan.is_closed() {
+                            continue;
+                        }
+                        // record first (instant before the write): the hub cannot have seen
+                        // the answer before this instant
+                        {
+                            let mut sh = shared.lock().unwrap();
+                            match rec {
+                                Rec::No => {}
+                                Rec::Ok(c, q) => sh.worker_side.entry((c, q, widx)).or_default().ok_sent.push(before),
+                                Rec::Fail(c, q) => sh.worker_side.entry((c, q, widx)).or_default().fail_sent.push(before),
+                                Rec::ExtraOk(c, q) => sh.worker_side.entry((c, q, widx)).or_default().extra_ok_sent.push(before),
+                            }
+                        }
+                        if let Err(e) = w.send(&r) {
+                            shared.lock().unwrap().worker_errors.push(format!("worker {widx} send: {e}"));
+                        }
+                    }
+                    Action::Close => {
+                        shared.lock().unwrap().closed_at.insert(widx, Instant::now());
+                        w.close();
+                    }
+                }
+            } else {
+                i += 1;
+            }
+        }
+        if w.chan.is_closed() {
+            std::thread::sleep(Duration::from_millis(10));
+            continue;
+        }
+        let next_due = schedule.iter().map(|s| s.0).min();
+        let mut deadline = Instant::now() + Duration::from_millis(15);
+        if let Some(d) = next_due {
+            deadline = deadline.min(d);
+        }
+        if chatty {
+            // notice quickly when a client switches the chatter on
+            deadline = deadline.min(Instant::now() + Duration::from_micros(500));
+        }
+        if chatty && draining_until.is_none() && chatter_on.load(Ordering::SeqCst) > 0 {
+            // keep the hub busy reading this worker: an answer nobody asked for, then look for
+            // requests without waiting
+            chatter_sent += CHATTER_BURST as u64;
+            let _ = w.chan.send_burst(&resp(&format!("unsolicited-{widx}"), ResponseStatus::Ok, "chatter".into(), None), CHATTER_BURST);
+            deadline = Instant::now() + Duration::from_micros(100 + (chatter_sent / CHATTER_BURST as u64 * 7919 % 600));
+        }
+        let req = match w.recv_until(deadline) {
+            Recv::Msg(m) => m,
+            Recv::Timeout => continue,
+            Recv::Closed => {
+                // the hub dropped its end (it exited)
+                break;
+            }
+            Recv::Error(e) => {
+                shared.lock().unwrap().worker_errors.push(format!("worker {widx} recv: {e}"));
+                break;
+            }
+        };
+        let got_at = Instant::now();
+        let key = worker_key(&req);
+        let target = key.as_ref().and_then(|k| shared.lock().unwrap().registry.get(k).copied());
+        let Some((c, q)) = target else {
+            shared.lock().unwrap().unroutable_worker_requests.push(format!("{:?}", req.content.request_type.as_ref().map(|r| format!("{r:?}").chars().take(80).collect::<String>())));
+            schedule.push((got_at, Action::Send(resp(&req.id, ResponseStatus::Ok, "ok (unrouted)".into(), None), Rec::No)));
+            continue;
+        };
+        let r: &Req = if c < scenario.clients.len() { &scenario.clients[c][q] } else { scenario.stop.as_ref().unwrap() };
+        let msg_index = {
+            let mut sh = shared.lock().unwrap();
+            let ws = sh.worker_side.entry((c, q, widx)).or_default();
+            ws.received += 1;
+            ws.first_received_at.get_or_insert(got_at);
+            ws.received - 1
+        };
+        let b = &r.beh[widx];
+        let tag = &r.tag;
+        let content = content_for(r.verb, tag);
+        if msg_index != b.target_msg {
+            // the other messages of a multi-message verb are acknowledged at once
+            schedule.push((got_at, Action::Send(resp(&req.id, ResponseStatus::Ok, format!("ok {tag}"), content), Rec::Ok(c, q))));
+            continue;
+        }
+        let at = got_at + Duration::from_millis(b.delay_ms);
+        let ok = |content| resp(&req.id, ResponseStatus::Ok, format!("ok {tag}"), content);
+        match b.class {
+            BehClass::Ok => schedule.push((at, Action::Send(ok(content), Rec::Ok(c, q)))),
+            BehClass::Failure => schedule.push((at, Action::Send(resp(&req.id, ResponseStatus::Failure, format!("fail {tag}"), None), Rec::Fail(c, q)))),
+            BehClass::Silent => {}
+            BehClass::Close => schedule.push((at, Action::Close)),
+            BehClass::DupOk => {
+                schedule.push((at, Action::Send(ok(content.clone()), Rec::Ok(c, q))));
+                // the duplicate is deliberately not recorded as a second acknowledgement
+                schedule.push((at + Duration::from_millis(b.k), Action::Send(ok(content), Rec::ExtraOk(c, q))));
+            }
+            BehClass::LateOk => schedule.push((got_at + timeout + LATE_AFTER_TIMEOUT + Duration::from_millis(b.delay_ms), Action::Send(ok(content), Rec::ExtraOk(c, q)))),
+            BehClass::Processing => {
+                for i in 0..b.k {
+                    let t = got_at + Duration::from_millis(b.delay_ms * (i + 1) / (b.k + 1));
+                    schedule.push((t, Action::Send(resp(&req.id, ResponseStatus::Processing, format!("working {tag}"), None), Rec::No)));
+                }
+                if b.final_fail {
+                    schedule.push((at, Action::Send(resp(&req.id, ResponseStatus::Failure, format!("fail {tag}"), None), Rec::Fail(c, q))));
+                } else {
+                    schedule.push((at, Action::Send(ok(content), Rec::Ok(c, q))));
+                }
+            }
+            BehClass::UnknownId => {
+                shared.lock().unwrap().worker_side.entry((c, q, widx)).or_default().unknown_request_ids += 1;
+                schedule.push((at, Action::Send(resp(&format!("bogus-{}-{widx}", req.id), ResponseStatus::Ok, format!("ok {tag}"), content), Rec::No)));
+            }
+        }
+    }
+    shared.lock().unwrap().chatter_sent += chatter_sent;
+    w.close();
+}
+
+fn write_state_file(path: &Path, tag: &str, n: usize) -> Result<(), String> {
+    let mut f = fs::File::create(path).map_err(|e| format!("create state file: {e}"))?;
+    for i in 0..n {
+        let content: Request = if i == 0 {
+            RequestType::AddCluster(Cluster { cluster_id: tag.to_owned(), ..Default::default() }).into()
+        } else {
+            RequestType::AddBackend(AddBackend {
+                cluster_id: tag.to_owned(),
+                backend_id: format!("{tag}-b{i}"),
+                address: SocketAddress::new_v4(127, 0, 0, 1, 2000 + i as u16),
+                ..Default::default()
+            })
+            .into()
+        };
+        let wr = WorkerRequest { id: format!("SAVE-{i}"), content };
+        let line = serde_json::to_string(&wr).map_err(|e| format!("serialise state: {e}"))?;
+        f.write_all(line.as_bytes()).and_then(|_| f.write_all(b"\n\0")).map_err(|e| format!("write state: {e}"))?;
+    }
+    Ok(())
+}
+
+fn write_reload_config(path: &Path, tag: &str) -> Result<(), String> {
+    let text = format!(
+        "command_socket = \"./sock\"\nworker_count = 0\nworker_automatic_restart = false\nlog_level = \"off\"\nlog_target = \"stdout\"\ndisable_cluster_metrics = false\nactivate_listeners = false\n\n[clusters.{tag}]\nprotocol = \"tcp\"\nfrontends = []\nbackends = [ {{ address = \"127.0.0.1:2999\" }} ]\n"
+    );
+    fs::write(path, text).map_err(|e| format!("write reload config: {e}"))
+}
+
+fn build_request(r: &Req, run_dir: &Path) -> Result<RequestType, String> {
+    Ok(match r.verb {
+        Verb::AddCluster => RequestType::AddCluster(Cluster { cluster_id: r.tag.clone(), ..Default::default() }),
+        Verb::AddBackend => RequestType::AddBackend(AddBackend {
+            cluster_id: r.tag.clone(),
+            backend_id: format!("{}-b", r.tag),
+            address: SocketAddress::new_v4(127, 0, 0, 1, 1999),
+            ..Default::default()
+        }),
+        Verb::QueryClusterById => RequestType::QueryClusterById(r.tag.clone()),
+        Verb::QueryClustersHashes => RequestType::QueryClustersHashes(QueryClustersHashes {}),
+        Verb::QueryMetrics => RequestType::QueryMetrics(QueryMetricsOptions {
+            list: false,
+            cluster_ids: vec![r.tag.clone()],
+            backend_ids: vec![],
+            metric_names: vec![],
+            no_clusters: false,
+            workers: false,
+        }),
+        Verb::Status => RequestType::Status(Status {}),
+        Verb::LoadState => {
+            let p = run_dir.join(format!("{}.state", r.tag));
+            write_state_file(&p, &r.tag, r.n_msgs)?;
+            RequestType::LoadState(p.to_string_lossy().into_owned())
+        }
+        Verb::Reload => {
+            let p = run_dir.join(format!("{}.toml", r.tag));
+            write_reload_config(&p, &r.tag)?;
+            RequestType::ReloadConfiguration(p.to_string_lossy().into_owned())
+        }
+        Verb::HardStop => RequestType::HardStop(HardStop {}),
+    })
+}
+
+/// send one request and record everything received until the final answer (+ linger), or
+/// until the deadline
+fn do_request_with(client: &mut HubClient, r: &Req, rt: RequestType, timeout: Duration, obs: &mut ReqObs, after_dispatch: Option<&dyn Fn()>) {
+    let mut after_dispatch = after_dispatch;
+    let t0 = Instant::now();
+    obs.sent_at = Some(t0);
+    if let Err(e) = client.send(rt) {
+        obs.harness_error = Some(format!("send: {e}"));
+        if let Some(f) = after_dispatch.take() {
+            f();
+        }
+        return;
+    }
+    let deadline = t0 + timeout + SLACK;
+    // how long to keep listening after the final answer for anything that should not come
+    let mut linger = Duration::from_millis(250);
+    if r.beh.iter().any(|b| b.class == BehClass::LateOk) {
+        linger = Duration::from_millis(300);
+    }
+    let mut stop_at = deadline;
+    loop {
+        let mut until = stop_at;
+        if after_dispatch.is_some() {
+            until = until.min(t0 + Duration::from_millis(30));
+        }
+        let got = client.recv_until(until);
+        if after_dispatch.is_some() && Instant::now() >= t0 + Duration::from_millis(30) {
+            if let Some(f) = after_dispatch.take() {
+                f();
+            }
+            if matches!(got, Recv::Timeout) && Instant::now() < stop_at {
+                continue;
+            }
+        }
+        match got {
+            Recv::Msg(m) => {
+                let now = Instant::now();
+                let is_final = m.status != ResponseStatus::Processing as i32;
+                obs.msgs.push(Msg { at_ms: (now - t0).as_millis() as u64, status: m.status, message: m.message, content: m.content });
+                if is_final && obs.final_idx.is_none() {
+                    obs.final_idx = Some(obs.msgs.len() - 1);
+                    obs.final_at = Some(now);
+                    stop_at = now + linger;
+                    // a late worker answer is due after the timeout: listen past it
+                    if r.beh.iter().any(|b| b.class == BehClass::LateOk) {
+                        let late_due = t0 + timeout + LATE_AFTER_TIMEOUT + Duration::from_millis(350 + 250);
+                        stop_at = stop_at.max(late_due.min(deadline));
+                    }
+                }
+            }
+            Recv::Timeout => break,
+            Recv::Closed => {
+                obs.connection_closed_by_hub = true;
+                break;
+            }
+            Recv::Error(e) => {
+                obs.harness_error = Some(format!("recv: {e}"));
+                break;
+            }
+        }
+    }
+    if let Some(f) = after_dispatch.take() {
+        f();
+    }
+}
+
+struct CaseRun {
+    obs: Vec<Vec<ReqObs>>, // [client][req]; the stop request is client index = clients.len()
+    shared: Shared,
+    responsive: Option<Result<Vec<(u32, i32, i32)>, String>>, // ListWorkers from a fresh client
+    shutdown: ShutdownReport,
+    pids: Vec<i32>,
+    /// workers whose script closed the channel and whose dummy child the hub had killed
+    killed_after_close: u64,
+    lab_error: Option<String>,
+}
+
+fn run_scenario(root: &Path, s: &Scenario) -> CaseRun {
+    let n_clients = s.clients.len();
+    let mut out = CaseRun {
+        obs: Vec::new(),
+        shared: Shared::default(),
+        responsive: None,
+        shutdown: ShutdownReport::default(),
+        pids: Vec::new(),
+        killed_after_close: 0,
+        lab_error: None,
+    };
+    let mut lab = match HubLab::start(root, s.workers, WORKER_TIMEOUT_S, |_| {}) {
+        Ok(l) => l,
+        Err(e) => {
+            out.lab_error = Some(e);
+            return out;
+        }
+    };
+    out.pids = lab.worker_pids();
+    let timeout = lab.worker_timeout;
+    let workers = lab.take_workers();
+    let shared = Mutex::new(Shared::default());
+    let stop = AtomicBool::new(false);
+    let chatter_on = AtomicU64::new(0);
+    let untagged_locks: HashMap<&'static str, Mutex<()>> =
+        [("Status", Mutex::new(())), ("QueryClustersHashes", Mutex::new(())), ("HardStop", Mutex::new(()))].into_iter().collect();
+    let run_dir = lab.run_dir.clone();
+    let sock = lab.sock_path.clone();
+
+    let mut all_obs: Vec<Vec<ReqObs>> = Vec::new();
+    let mut responsive = None;
+    let mut killed_after_close = 0u64;
+    let pids = out.pids.clone();
+    let run_client = |c: usize, reqs: &[Req]| -> Vec<ReqObs> {
+        let mut obs: Vec<ReqObs> = reqs.iter().map(|_| ReqObs::default()).collect();
+        let mut client = match HubClient::connect(&sock) {
+            Ok(cl) => cl,
+            Err(e) => {
+                for o in obs.iter_mut() {
+                    o.harness_error = Some(e.clone());
+                }
+                return obs;
+            }
+        };
+        for (q, r) in reqs.iter().enumerate() {
+            std::thread::sleep(Duration::from_millis(r.pre_delay_ms));
+            let rt = match build_request(r, &run_dir) {
+                Ok(rt) => rt,
+                Err(e) => {
+                    obs[q].harness_error = Some(e);
+                    break;
+                }
+            };
+            let _guard = if r.verb.untagged() { Some(untagged_locks[r.verb.name()].lock().unwrap()) } else { None };
+            let key = if r.verb.untagged() { r.verb.name().to_owned() } else { r.tag.clone() };
+            shared.lock().unwrap().registry.insert(key, (c, q));
+            // chatter only around the dispatch (a hub flooded for seconds proves nothing more)
+        chatter_on.fetch_add(1, Ordering::SeqCst);
+        let chatter_off = {
+            let chatter_on = &chatter_on;
+            move || { chatter_on.fetch_sub(1, Ordering::SeqCst); }
+        };
+        std::thread::sleep(Duration::from_millis(if s.chatty.is_empty() { 0 } else { 5 }));
+        do_request_with(&mut client, r, rt, timeout, &mut obs[q], Some(&chatter_off));
+            if obs[q].final_idx.is_none() {
+                // the connection is in an unknown state: the remaining requests are not sent
+                for o in obs.iter_mut().skip(q + 1) {
+                    o.skipped = true;
+                }
+                break;
+            }
+        }
+        obs
+    };
+    std::thread::scope(|scope| {
+        let mut wh = Vec::new();
+        for (i, w) in workers.into_iter().enumerate() {
+            let shared = &shared;
+            let stop = &stop;
+            let chatter_on = &chatter_on;
+            wh.push(scope.spawn(move || worker_loop(w, i, s, shared, stop, chatter_on, timeout)));
+        }
+        let handles: Vec<_> = s
+            .clients
+            .iter()
+            .enumerate()
+            .map(|(c, reqs)| {
+                let run_client = &run_client;
+                scope.spawn(move || run_client(c, reqs))
+            })
+            .collect();
+        for h in handles {
+            all_obs.push(h.join().unwrap_or_default());
+        }
+        // responsiveness: a fresh client asks the main process for its worker list
+        responsive = Some((|| -> Result<Vec<(u32, i32, i32)>, String> {
+            let mut c = HubClient::connect(&sock)?;
+            match c.request(RequestType::ListWorkers(ListWorkers {}), Duration::from_secs(4))? {
+                (_, Some(f)) => match f.content.and_then(|c| c.content_type) {
+                    Some(ContentType::Workers(w)) if f.status == ResponseStatus::Ok as i32 => {
+                        Ok(w.vec.iter().map(|i| (i.id, i.pid, i.run_state)).collect())
+                    }
+                    other => Err(format!("unexpected answer to ListWorkers: status {} content {:?}", f.status, other.is_some())),
+                },
+                (_, None) => Err("no answer to ListWorkers within 4 s".into()),
+            }
+        })());
+        // a worker whose script closed its channel must have been SIGKILLed by the hub by now:
+        // its dummy child is a zombie (not reaped before the hub thread is gone)
+        for w in shared.lock().unwrap().closed_at.keys() {
+            let stat = fs::read_to_string(format!("/proc/{}/stat", pids[*w])).unwrap_or_default();
+            let state = stat.rsplit(')').next().and_then(|r| r.trim().chars().next());
+            if state == Some('Z') {
+                killed_after_close += 1;
+            }
+        }
+        if let Some(stop_req) = &s.stop {
+            all_obs.push(run_client(n_clients, std::slice::from_ref(stop_req)));
+        }
+        stop.store(true, Ordering::SeqCst);
+        for h in wh {
+            let _ = h.join();
+        }
+    });
+    out.obs = all_obs;
+    out.responsive = responsive;
+    out.killed_after_close = killed_after_close;
+    out.shared = shared.into_inner().unwrap_or_default();
+    out.shutdown = lab.shutdown();
+    out
+}
+
+// =================================================================================================
+// Oracle
+// =================================================================================================
+
+fn status_name(s: i32) -> &'static str {
+    match ResponseStatus::try_from(s) {
+        Ok(ResponseStatus::Ok) => "OK",
+        Ok(ResponseStatus::Failure) => "FAILURE",
+        Ok(ResponseStatus::Processing) => "PROCESSING",
+        Err(_) => "?",
+    }
+}
+
+fn msgs_json(o: &ReqObs) -> Value {
+    Value::Array(
+        o.msgs
+            .iter()
+            .map(|m| json!({"at_ms": m.at_ms, "status": status_name(m.status), "message": m.message.chars().take(200).collect::<String>(), "has_content": m.content.is_some()}))
+            .collect(),
+    )
+}
+
+#[derive(Debug, PartialEq)]
+enum Verdict {
+    Fine,
+    /// no final answer by the deadline: to be re-run in isolation
+    Miss,
+}
+
+struct Judge<'a> {
+    ctx: &'a Ctx,
+    s: &'a Scenario,
+    run: &'a CaseRun,
+}
+
+/// simplest witness seen per signature (the shared report keeps the first three it meets, which
+/// with 64 runner threads are rarely the smallest ones)
+static SIMPLEST: Mutex<BTreeMap<String, (u64, crate::common::Violation)>> = Mutex::new(BTreeMap::new());
+
+/// smaller = simpler scenario
+fn scenario_weight(s: &Scenario) -> u64 {
+    let reqs: Vec<&Req> = s.clients.iter().flatten().chain(s.stop.iter()).collect();
+    let faulty: usize = reqs.iter().map(|r| r.beh.iter().filter(|b| b.class != BehClass::Ok).count()).sum();
+    let msgs: usize = reqs.iter().map(|r| r.n_msgs).sum();
+    (reqs.len() as u64) * 10_000 + (s.workers as u64) * 1_000 + (faulty as u64) * 100 + msgs as u64 * 10 + if s.chatty.is_empty() { 0 } else { 5 }
+}
+
+fn violate_weighted(rep: &mut Report, weight: u64, signature: &str, what: &str, witness: Value) {
+    {
+        let mut best = SIMPLEST.lock().unwrap_or_else(|e| e.into_inner());
+        let better = best.get(signature).map(|(w, _)| weight < *w).unwrap_or(true);
+        if better {
+            best.insert(signature.to_owned(), (weight, crate::common::Violation { signature: signature.to_owned(), what: what.to_owned(), witness: witness.clone() }));
+        }
+    }
+    rep.violation(signature, what, witness);
+}
+
+impl Judge<'_> {
+    fn violate(&self, rep: &mut Report, signature: &str, what: &str, witness: Value) {
+        violate_weighted(rep, scenario_weight(self.s), signature, what, witness)
+    }
+
+    fn req(&self, c: usize, q: usize) -> &Req {
+        if c < self.s.clients.len() { &self.s.clients[c][q] } else { self.s.stop.as_ref().unwrap() }
+    }
+
+    fn witness(&self, c: usize, q: usize, expected: &str, extra: Value) -> Value {
+        let o = &self.run.obs[c][q];
+        let r = self.req(c, q);
+        let ws: Vec<Value> = (0..self.s.workers)
+            .map(|w| {
+                let side = self.run.shared.worker_side.get(&(c, q, w));
+                let rel = |t: &Instant| o.sent_at.map(|s| t.saturating_duration_since(s).as_millis() as u64);
+                json!({"worker": w, "scripted": r.beh[w].json(),
+                    "messages_received": side.map(|s| s.received).unwrap_or(0),
+                    "ok_answers_written_at_ms": side.map(|s| s.ok_sent.iter().map(rel).collect::<Vec<_>>()),
+                    "failure_answers_written_at_ms": side.map(|s| s.fail_sent.iter().map(rel).collect::<Vec<_>>()),
+                    "channel_closed_by_script_at_ms": self.run.shared.closed_at.get(&w).map(rel)})
+            })
+            .collect();
+        json!({"case": self.s.case, "seed": self.s.seed, "client": c, "request_index": q,
+            "request": req_json(r), "expected": expected,
+            "observed_client_messages": msgs_json(o), "workers": ws, "extra": extra,
+            "scenario": scenario_json(self.s),
+            "reproduce": format!("vh C09 --tier {} --seed {} --opt only={} --opt print=1", self.ctx.tier.name(), self.s.seed as i64, self.s.case)})
+    }
+
+    /// judge one client request; returns Miss when it got no final answer in time
+    fn judge(&self, c: usize, q: usize, rep: &mut Report) -> Verdict {
+        let o = &self.run.obs[c][q];
+        let r = self.req(c, q);
+        let fam = r.verb.family();
+        if o.skipped || o.sent_at.is_none() {
+            rep.obs("requests_not_sent_after_earlier_miss", 1);
+            return Verdict::Fine;
+        }
+        let hub_died = self.run.shutdown.panics.iter().any(|p| p.in_sozu());
+        if o.harness_error.is_some() && hub_died {
+            // reported once, as the panic of the hub thread
+            rep.obs("requests_failed_after_hub_thread_died", 1);
+            return Verdict::Fine;
+        }
+        if let Some(e) = &o.harness_error {
+            rep.inconclusive(&format!("harness error on a client request: {}", e.chars().take(60).collect::<String>()));
+            return Verdict::Fine;
+        }
+        rep.obs("client_requests_judged", 1);
+        rep.obs(&format!("verb:{}", r.verb.name()), 1);
+        for b in &r.beh {
+            rep.obs(&format!("beh:{}:{}", fam, b.class.name()), 1);
+        }
+        let sent_at = o.sent_at.unwrap();
+
+        // -- affinity of every message: no other request's tag may show up
+        for m in &o.msgs {
+            for other in self.all_tags() {
+                if other != r.tag && m.message.contains(other.as_str()) {
+                    self.violate(rep, 
+                        &format!("hub/wrong_client/{fam}"),
+                        &format!("client {c} received a message that belongs to request {other}: {:?}", m.message),
+                        self.witness(c, q, "only messages about this client's own request", json!({"foreign_tag": other})),
+                    );
+                }
+            }
+        }
+
+        // -- exactly one final answer, nothing after it
+        let Some(fi) = o.final_idx else {
+            if hub_died {
+                // a consequence of the panic, which is reported on its own
+                rep.obs("no_final_answer_after_hub_thread_died", 1);
+                return Verdict::Fine;
+            }
+            return Verdict::Miss;
+        };
+        let fin = &o.msgs[fi];
+        let t_final = o.final_at.unwrap();
+        let ttf = (t_final - sent_at).as_millis() as u64;
+        rep.obs_max("time_to_final_ms", ttf);
+        rep.obs_max(&format!("time_to_final_ms:{fam}"), ttf);
+        if ttf + 50 >= self.run_timeout_ms() {
+            rep.obs("finals_at_or_after_worker_timeout", 1);
+        }
+        if ttf > self.run_timeout_ms() + 500 {
+            rep.obs("finals_later_than_timeout_plus_500ms", 1);
+        }
+        let after: Vec<&Msg> = o.msgs.iter().skip(fi + 1).collect();
+        if let Some(m2) = after.iter().find(|m| m.status != ResponseStatus::Processing as i32) {
+            self.violate(rep, 
+                &format!("hub/two_final_answers/{fam}"),
+                &format!("{} got a second final answer ({} after {})", r.verb.name(), status_name(m2.status), status_name(fin.status)),
+                self.witness(c, q, "exactly one final answer", json!({})),
+            );
+        } else if !after.is_empty() {
+            self.violate(rep, 
+                &format!("hub/message_after_final/{fam}"),
+                &format!("{} received {} more message(s) after its final answer", r.verb.name(), after.len()),
+                self.witness(c, q, "nothing after the final answer", json!({})),
+            );
+        }
+
+        let is_ok = fin.status == ResponseStatus::Ok as i32;
+        rep.obs(if is_ok { "final_ok" } else { "final_failure" }, 1);
+
+        // -- which workers were alive at dispatch, and which of them acknowledged in time
+        let mut unacked: Vec<(usize, &'static str)> = Vec::new(); // (worker, cause)
+        let mut ambiguous = false;
+        let mut answered_ok_before_final: Vec<bool> = vec![false; self.s.workers];
+        for w in 0..self.s.workers {
+            let side = self.run.shared.worker_side.get(&(c, q, w));
+            let received = side.map(|s| s.received).unwrap_or(0);
+            let closed_at = self.run.shared.closed_at.get(&w).copied();
+            if received == 0 {
+                match closed_at {
+                    Some(t) if t + Duration::from_millis(150) < sent_at => {
+                        // dead before the request existed: no obligation
+                        rep.obs("worker_dead_at_dispatch", 1);
+                        continue;
+                    }
+                    Some(_) => {
+                        ambiguous = true; // closed around the dispatch: cannot tell
+                        continue;
+                    }
+                    None => {
+                        if !is_ok {
+                            continue; // refused by the main process before any dispatch
+                        }
+                        unacked.push((w, "never_asked"));
+                        continue;
+                    }
+                }
+            }
+            let side = side.unwrap();
+            // acknowledged = one successful answer per received message, each written before
+            // the client saw the final answer
+            let oks_before = side.ok_sent.iter().filter(|t| **t <= t_final).count();
+            let fails_before = side.fail_sent.iter().filter(|t| **t <= t_final).count();
+            if received < r.n_msgs {
+                if closed_at.is_some() {
+                    ambiguous = true;
+                    continue;
+                }
+                // the hub sent fewer messages than the request contains
+                rep.obs("worker_received_fewer_messages_than_expected", 1);
+            }
+            if fails_before == 0 && side.ok_sent.iter().chain(side.extra_ok_sent.iter()).any(|t| *t <= t_final) {
+                answered_ok_before_final[w] = true;
+            }
+            if fails_before == 0 && oks_before >= received && received >= r.n_msgs {
+                continue;
+            }
+            let b = &r.beh[w];
+            let closed_before_final = closed_at.map(|t| t <= t_final).unwrap_or(false);
+            // name the cause by what the worker actually did before the client saw the final
+            // answer, then by what it was scripted to do
+            let cause = if fails_before > 0 {
+                "failure"
+            } else if closed_before_final {
+                "closed_worker"
+            } else if b.class == BehClass::LateOk && side.extra_ok_sent.iter().any(|t| *t <= t_final) {
+                // answered, but only after the worker timeout had passed
+                "late_answer"
+            } else if matches!(b.class, BehClass::Silent | BehClass::UnknownId | BehClass::LateOk) {
+                "silent_worker"
+            } else if ttf + 50 >= self.run_timeout_ms() {
+                // had the whole worker timeout and did not answer within it
+                "silent_worker"
+            } else {
+                // scripted to answer (or to fail/close) later than the final answer came
+                "unanswered_yet"
+            };
+            unacked.push((w, cause));
+        }
+        if ambiguous {
+            rep.obs("requests_exempt_worker_closed_around_dispatch", 1);
+        }
+
+        // -- content affinity
+        if is_ok {
+            if let Some(problem) = self.content_problem(r, fin, &answered_ok_before_final) {
+                if problem.0 == "status_reports_mute_worker_running" {
+                    if !ambiguous {
+                        self.violate(rep, &format!("hub/{}", problem.0), &problem.1, self.witness(c, q, "a worker is reported RUNNING only if it answered the status request", json!({})));
+                    }
+                } else {
+                    self.violate(rep, &format!("hub/wrong_content/{fam}"), &problem.1, self.witness(c, q, "answer content about this request only", json!({"problem": problem.0})));
+                }
+            } else if matches!(r.verb, Verb::QueryClusterById | Verb::QueryMetrics | Verb::Status) {
+                rep.obs("content_checks_passed", 1);
+            }
+        }
+
+        // -- the verdict implication
+        if !is_ok {
+            if unacked.is_empty() && !ambiguous {
+                rep.obs("final_failure_although_every_live_worker_acknowledged", 1);
+                if fin.message.contains("could not dispatch") {
+                    rep.obs("refused_by_main_state", 1);
+                }
+            } else {
+                rep.obs("final_failure_with_faulty_worker", 1);
+            }
+            return Verdict::Fine;
+        }
+        if unacked.is_empty() {
+            rep.obs("final_ok_every_live_worker_acknowledged", 1);
+            // answers that the hub lost (or sat on) show up as a final answer held back until
+            // the worker timeout although the last acknowledgement was written long before
+            let last_ack = (0..self.s.workers)
+                .filter_map(|w| self.run.shared.worker_side.get(&(c, q, w)))
+                .flat_map(|s| s.ok_sent.iter().copied())
+                .max();
+            if let Some(t) = last_ack {
+                if ttf + 50 >= self.run_timeout_ms() && t + Duration::from_millis(400) < t_final && !ambiguous {
+                    rep.obs("final_ok_held_back_to_worker_timeout_although_all_acknowledged_early", 1);
+                }
+            }
+            return Verdict::Fine;
+        }
+        if ambiguous {
+            return Verdict::Fine;
+        }
+        if r.verb == Verb::Status {
+            // Status reports per-worker health in its content (checked above): an OK whose
+            // content is truthful about the mute workers matches what the workers did
+            rep.obs("status_ok_with_truthful_content_despite_faulty_worker", 1);
+            return Verdict::Fine;
+        }
+        // name of the failure class. A request that completed because the number of successful
+        // answers written (duplicates and late ones included) reached the number of dispatched
+        // messages, although some worker had not acknowledged, was completed by a duplicate
+        // (whatever else the other workers wrote in the same instant).
+        let mut dispatched = 0usize;
+        let mut answers_before_final = 0usize;
+        for w in 0..self.s.workers {
+            if let Some(side) = self.run.shared.worker_side.get(&(c, q, w)) {
+                dispatched += side.received;
+                answers_before_final += side.ok_sent.iter().chain(side.extra_ok_sent.iter()).filter(|t| **t <= t_final).count();
+
+            }
+        }
+        let dup_written = (0..self.s.workers).any(|w| {
+            r.beh[w].class == BehClass::DupOk
+                && self.run.shared.worker_side.get(&(c, q, w)).map(|s| s.extra_ok_sent.iter().any(|t| *t <= t_final)).unwrap_or(false)
+        });
+        let causes: BTreeSet<&str> = unacked.iter().map(|u| u.1).collect();
+        let class = if causes.contains("never_asked") {
+            "ok_worker_never_asked"
+        } else if dup_written && answers_before_final >= dispatched {
+            "ok_by_duplicate_answer"
+        } else if causes.contains("failure") {
+            "ok_despite_failure"
+        } else if causes.contains("closed_worker") {
+            "ok_despite_closed_worker"
+        } else if causes.contains("silent_worker") {
+            "ok_despite_silent_worker"
+        } else if causes.contains("late_answer") {
+            "ok_despite_late_answer"
+        } else {
+            "ok_before_all_workers_answered"
+        };
+        let who: Vec<String> = unacked.iter().map(|(w, cause)| format!("worker {w}: {cause}")).collect();
+        // every task type counts answers with the same gatherer: one signature for duplicates
+        let signature = if class == "ok_by_duplicate_answer" { format!("hub/{class}") } else { format!("hub/{class}/{fam}") };
+        self.violate(rep, 
+            &signature,
+            &format!(
+                "{} got final OK after {ttf} ms ({:?}) although not every worker alive at dispatch had acknowledged: {}",
+                r.verb.name(),
+                fin.message.chars().take(80).collect::<String>(),
+                who.join(", ")
+            ),
+            self.witness(c, q, "final FAILURE (a live worker failed, disconnected or did not answer within worker_timeout)", json!({"unacknowledged": who})),
+        );
+        Verdict::Fine
+    }
+
+    /// every worker that got the request wrote a successful answer for each of its messages
+    /// (at any time during the case), none failed, none was closed
+    fn all_workers_acknowledged(&self, c: usize, q: usize) -> bool {
+        let r = self.req(c, q);
+        let mut any = false;
+        for w in 0..self.s.workers {
+            if self.run.shared.closed_at.contains_key(&w) {
+                return false;
+            }
+            let Some(side) = self.run.shared.worker_side.get(&(c, q, w)) else { return false };
+            if side.received < r.n_msgs || side.ok_sent.len() < side.received || !side.fail_sent.is_empty() {
+                return false;
+            }
+            any = true;
+        }
+        any
+    }
+
+    /// record the violation for a request that got no final answer (after it reproduced)
+    fn miss_violation(&self, c: usize, q: usize, rep: &mut Report, how: &str) {
+        let r = self.req(c, q);
+        let fam = r.verb.family();
+        let all_acked = self.all_workers_acknowledged(c, q);
+        let sig = if all_acked {
+            format!("hub/no_final_answer_although_all_workers_acknowledged/{fam}")
+        } else {
+            format!("hub/no_final_answer/{fam}")
+        };
+        let what = format!(
+            "{} got no final answer within worker_timeout + {} ms{} (scripted worker behaviours {:?}{}); {how}",
+            r.verb.name(),
+            SLACK.as_millis(),
+            if all_acked { " although every worker acknowledged every message" } else { "" },
+            r.beh.iter().map(|b| b.class.name()).collect::<Vec<_>>(),
+            if self.s.chatty.is_empty() { "" } else { ", workers also flooding answers with unknown ids" },
+        );
+        self.violate(rep, &sig, &what, self.witness(c, q, "one final answer within worker_timeout + slack", json!({"reproduced": how})));
+    }
+
+    fn run_timeout_ms(&self) -> u64 {
+        WORKER_TIMEOUT_S as u64 * 1000
+    }
+
+    fn all_tags(&self) -> Vec<String> {
+        let mut v: Vec<String> = self.s.clients.iter().flatten().map(|r| r.tag.clone()).collect();
+        if let Some(s) = &self.s.stop {
+            v.push(s.tag.clone());
+        }
+        v
+    }
+
+    /// (kind, description) when the content of a final OK is not about this request
+    fn content_problem(&self, r: &Req, fin: &Msg, acked: &[bool]) -> Option<(&'static str, String)> {
+        let worker_keys: BTreeSet<String> = (0..self.s.workers).map(|w| w.to_string()).collect();
+        let ct = fin.content.as_ref().and_then(|c| c.content_type.as_ref());
+        match r.verb {
+            Verb::QueryClusterById => {
+                let Some(ContentType::WorkerResponses(wr)) = ct else {
+                    return Some(("missing", "QueryClusterById OK without worker responses".into()));
+                };
+                for (k, v) in &wr.map {
+                    if k != "main" && !worker_keys.contains(k) {
+                        return Some(("unknown_worker", format!("answer attributed to unknown worker {k:?}")));
+                    }
+                    if let Some(ContentType::Clusters(ci)) = &v.content_type {
+                        for info in &ci.vec {
+                            let id = info.configuration.as_ref().map(|c| c.cluster_id.as_str()).unwrap_or("");
+                            if id != r.tag {
+                                return Some(("foreign_cluster", format!("QueryClusterById({}) answer from {k} names cluster {id:?}", r.tag)));
+                            }
+                        }
+                    }
+                }
+                None
+            }
+            Verb::QueryMetrics => {
+                let Some(ContentType::Metrics(m)) = ct else {
+                    return Some(("missing", "QueryMetrics OK without aggregated metrics".into()));
+                };
+                for k in m.clusters.keys() {
+                    if k != &r.tag {
+                        return Some(("foreign_cluster", format!("QueryMetrics([{}]) answer holds metrics of cluster {k:?}", r.tag)));
+                    }
+                }
+                for (wk, wm) in &m.workers {
+                    if !worker_keys.contains(wk) {
+                        return Some(("unknown_worker", format!("metrics attributed to unknown worker {wk:?}")));
+                    }
+                    for k in wm.clusters.keys() {
+                        if k != &r.tag {
+                            return Some(("foreign_cluster", format!("QueryMetrics([{}]) answer holds metrics of cluster {k:?}", r.tag)));
+                        }
+                    }
+                }
+                None
+            }
+            Verb::Status => {
+                let Some(ContentType::Workers(ws)) = ct else {
+                    return Some(("missing", "Status OK without worker list".into()));
+                };
+                let listed: BTreeMap<u32, (i32, i32)> = ws.vec.iter().map(|i| (i.id, (i.pid, i.run_state))).collect();
+                for w in 0..self.s.workers {
+                    match listed.get(&(w as u32)) {
+                        None => return Some(("worker_missing", format!("Status does not list registered worker {w}"))),
+                        Some((pid, _)) if *pid != self.run.pids[w] => {
+                            return Some(("wrong_pid", format!("Status lists worker {w} with pid {pid}, registered {}", self.run.pids[w])));
+                        }
+                        Some((_, st)) => {
+                            if *st == RunState::Running as i32 && !acked[w] {
+                                return Some((
+                                    "status_reports_mute_worker_running",
+                                    format!("Status reports worker {w} RUNNING although it had written no successful answer to the status request"),
+                                ));
+                            }
+                        }
+                    }
+                }
+                if listed.len() != self.s.workers {
+                    return Some(("extra_worker", format!("Status lists {} workers, {} registered", listed.len(), self.s.workers)));
+                }
+                None
+            }
+            _ => None,
+        }
+    }
+}
+
+/// the same request alone on a fresh hub, every worker doing to it what it did in the full
+/// case (a worker that another request's script had closed is closed here too)
+fn isolated(s: &Scenario, run: &CaseRun, c: usize, q: usize) -> Scenario {
+    let mut r = if c < s.clients.len() { s.clients[c][q].clone() } else { s.stop.clone().unwrap() };
+    r.pre_delay_ms = 0;
+    let mut pre_closed = Vec::new();
+    let sent_at = run.obs[c][q].sent_at;
+    for w in 0..s.workers {
+        let Some(closed) = run.shared.closed_at.get(&w).copied() else { continue };
+        let side = run.shared.worker_side.get(&(c, q, w));
+        let received = side.map(|x| x.received).unwrap_or(0);
+        if received == 0 {
+            if sent_at.map(|t| closed < t).unwrap_or(false) {
+                pre_closed.push(w);
+                r.pre_delay_ms = 400;
+            }
+            continue;
+        }
+        let side = side.unwrap();
+        let acked = side.ok_sent.iter().filter(|t| **t <= closed).count() >= r.n_msgs;
+        if !acked && r.beh[w].class != BehClass::Close {
+            let first = side.first_received_at.unwrap_or(closed);
+            r.beh[w].class = BehClass::Close;
+            r.beh[w].delay_ms = closed.saturating_duration_since(first).as_millis() as u64;
+            r.beh[w].target_msg = 0;
+        }
+    }
+    let (clients, stop) = if r.verb == Verb::HardStop { (vec![], Some(r)) } else { (vec![vec![r]], None) };
+    Scenario { case: s.case, seed: s.seed, workers: s.workers, clients, stop, exhaustive_block: s.exhaustive_block, pre_closed, chatty: s.chatty.clone() }
+}
+
+fn run_case(ctx: &Ctx, case: u64, plan: (u64, u64), rep: &mut Report) {
+    let s = gen_scenario(ctx.seed, case, plan.0, plan.1);
+    let run = run_scenario(&ctx.root, &s);
+    evaluate(ctx, &s, &run, rep, true);
+    // shape of the case for the distinct count
+    let mut shape: Vec<u8> = vec![s.workers as u8, s.clients.len() as u8];
+    for r in s.clients.iter().flatten().chain(s.stop.iter()) {
+        shape.push(r.verb as u8);
+        shape.push(r.n_msgs as u8);
+        for b in &r.beh {
+            shape.push(b.class as u8);
+            shape.push((b.delay_ms / 10) as u8);
+        }
+        shape.push(0xff);
+    }
+    let faulty = s.clients.iter().flatten().chain(s.stop.iter()).any(|r| r.beh.iter().any(|b| b.class != BehClass::Ok));
+    rep.case_bytes(&shape, faulty || s.clients.len() > 1);
+    if case % 97 == 0 {
+        rep.sample(json!({"scenario": scenario_json(&s),
+            "finals": run.obs.iter().map(|c| c.iter().map(|o| o.final_idx.map(|i| json!({"status": status_name(o.msgs[i].status), "at_ms": o.msgs[i].at_ms}))).collect::<Vec<_>>()).collect::<Vec<_>>()}));
+    }
+}
+
+fn evaluate(ctx: &Ctx, s: &Scenario, run: &CaseRun, rep: &mut Report, allow_rerun: bool) {
+    if let Some(e) = &run.lab_error {
+        rep.inconclusive(&format!("hub lab did not start: {}", e.chars().take(80).collect::<String>()));
+        return;
+    }
+    rep.obs(&format!("W={}", s.workers), 1);
+    rep.obs(&format!("concurrent_clients={}", s.clients.len()), 1);
+    if s.exhaustive_block {
+        rep.obs(&format!("exhaustive_block_cases:W={}", s.workers), 1);
+    }
+    let judge = Judge { ctx, s, run };
+    for (c, reqs) in run.obs.iter().enumerate() {
+        for q in 0..reqs.len() {
+            if judge.judge(c, q, rep) == Verdict::Miss {
+                rep.obs("no_final_answer_by_deadline", 1);
+                if !allow_rerun {
+                    continue;
+                }
+                // bounded-liveness miss: a violation only when it reproduces on a fresh hub,
+                // first with this request alone (workers doing to it what they did here), then
+                // with the whole scenario again
+                let tag = judge.req(c, q).tag.clone();
+                let fam = judge.req(c, q).verb.family();
+                let all_acked = judge.all_workers_acknowledged(c, q);
+                let mut attempts = Vec::new();
+                if s.chatty.is_empty() {
+                    attempts.push((isolated(s, run, c, q), "reproduced with the request alone on a fresh hub"));
+                }
+                if s.clients.iter().map(|v| v.len()).sum::<usize>() + s.stop.iter().count() > 1 {
+                    attempts.push((s.clone(), "reproduced by re-running the whole scenario on a fresh hub"));
+                    if !s.chatty.is_empty() {
+                        // a race: give it a second chance
+                        attempts.push((s.clone(), "reproduced by re-running the whole scenario on a fresh hub (second attempt)"));
+                    }
+                }
+                let mut reproduced = false;
+                for (sc, how) in attempts {
+                    let run2 = run_scenario(&ctx.root, &sc);
+                    if run2.lab_error.is_some() {
+                        continue;
+                    }
+                    let j2 = Judge { ctx, s: &sc, run: &run2 };
+                    // the same request again without a final answer; failing that, another
+                    // request of the same scenario failing the same way (same verb family,
+                    // same acknowledgement state)
+                    let mut found = None;
+                    for (c2, reqs) in run2.obs.iter().enumerate() {
+                        for (q2, o2) in reqs.iter().enumerate() {
+                            let missed = o2.sent_at.is_some() && !o2.skipped && o2.harness_error.is_none() && o2.final_idx.is_none();
+                            if !missed {
+                                continue;
+                            }
+                            let r2 = j2.req(c2, q2);
+                            if r2.tag == tag {
+                                found = Some((c2, q2));
+                            } else if found.is_none() && r2.verb.family() == fam && j2.all_workers_acknowledged(c2, q2) == all_acked {
+                                found = Some((c2, q2));
+                            }
+                        }
+                    }
+                    if let Some((c2, q2)) = found {
+                        rep.obs("misses_reproduced_on_a_fresh_hub", 1);
+                        j2.miss_violation(c2, q2, rep, how);
+                        reproduced = true;
+                        break;
+                    }
+                }
+                if !reproduced {
+                    rep.obs(if judge.all_workers_acknowledged(c, q) { "unreproduced_miss_although_all_workers_acknowledged" } else { "unreproduced_miss_with_faulty_worker" }, 1);
+                    rep.inconclusive("no final answer by the deadline, not reproduced on a fresh hub");
+                }
+            }
+        }
+    }
+    // -- hub thread health
+    for p in &run.shutdown.panics {
+        if p.in_sozu() {
+            violate_weighted(rep, scenario_weight(s), 
+                &format!("hub/hub_thread_died/{}", p.signature()),
+                &format!("the hub thread panicked: {} at {}", p.message, p.location),
+                json!({"case": s.case, "seed": s.seed, "panic": p.message, "location": p.location, "scenario": scenario_json(s)}),
+            );
+        } else {
+            rep.broken(&format!("harness panic in hub thread: {} at {}", p.message, p.location));
+        }
+    }
+    match &run.responsive {
+        Some(Ok(list)) => {
+            rep.obs("responsiveness_probe_answered", 1);
+            for (id, _pid, st) in list {
+                if *st == RunState::Stopped as i32 && run.shared.closed_at.contains_key(&(*id as usize)) {
+                    rep.obs("closed_workers_listed_stopped", 1);
+                }
+            }
+        }
+        Some(Err(e)) => {
+            if run.shutdown.panics.iter().any(|p| p.in_sozu()) {
+                // already reported as a panic
+            } else if allow_rerun {
+                rep.inconclusive(&format!("responsiveness probe failed: {}", e.chars().take(60).collect::<String>()));
+            }
+        }
+        None => {}
+    }
+    if !run.shutdown.hub_exited {
+        rep.inconclusive("hub thread could not be stopped at the end of the case");
+    }
+    if s.stop.is_some() {
+        rep.obs(if run.shutdown.exited_before_stop { "hub_exited_after_stop_verb" } else { "hub_still_running_after_stop_verb" }, 1);
+    }
+    let killed = run.shutdown.killed_by_hub.iter().filter(|k| **k).count() as u64;
+    rep.obs("dummy_workers_found_killed_at_shutdown", killed);
+    rep.obs("dummy_workers_killed_by_hub", run.killed_after_close);
+    rep.obs("worker_channels_closed_by_script", run.shared.closed_at.len() as u64);
+    if !run.shared.unroutable_worker_requests.is_empty() {
+        rep.obs("worker_requests_not_attributable", run.shared.unroutable_worker_requests.len() as u64);
+    }
+    for e in run.shared.worker_errors.iter().take(1) {
+        rep.obs("worker_side_io_errors", 1);
+        let _ = e;
+    }
+}
+
+pub fn run(ctx: &Ctx) -> Report {
+    let mut rep = Report::new(
+        "fault_enumeration",
+        "one real CommandHub per case with W scripted workers (each registered with the pid of a dummy child) and a worker_timeout of 1 s. Block 1 enumerates, for each verb family {mutating, query, metrics, status, load_state, reload, hard_stop}, ALL assignments of the 8 worker behaviours {ok, failure, silent, close channel, duplicate ok, late ok after the deadline, k x processing then final, answer with unknown id} to W=1 and W=2 workers on a single request (8+64 per family; `exhaustive` refers to this sub-space; delays, k and the message hit in multi-message verbs are seeded). Block 2 (8 cases) overlaps two deadlines: request A with one late-answering worker, request B of another client 0.6-0.8 s later with a mute worker. Block 3 (race) has well-behaved workers that also flood answers with unknown ids around each dispatch, 6-8 sequential requests. Block 4 samples W in 1..4 (mostly 3..4), 1..8 concurrent clients with 1..3 requests each, random behaviours and delays, optionally a final HardStop. Oracle: exactly one final answer per request within worker_timeout + 3 s (a miss is re-run on a fresh hub, first the request alone with the workers doing to it what they did, then the whole scenario, and only a reproduced miss is a violation, else inconclusive); final OK only if every worker that received the request had written a successful answer for each of its messages before the client saw the final answer; no foreign tag/content in any message; hub thread alive (no panic under /repo) and answering a fresh ListWorkers. A case is non-trivial when some worker misbehaves or clients are concurrent; distinct = distinct (W, verbs, behaviour classes, delays) shapes",
+    );
+    rep.assume("a worker counts as alive at dispatch iff it read the request off its channel; requests racing with a scripted channel close are exempt");
+    rep.assume("Status is not among the verbs the statement quantifies over: an OK whose worker list is truthful (no mute worker reported RUNNING) is accepted and counted as exempt");
+    rep.assume("SoftStop is not driven: it waits for the workers' sessions to end by design (no deadline), so silence past the worker timeout is its normal behaviour; HardStop is the stop verb exercised");
+    rep.assume("a final FAILURE although every live worker acknowledged is not judged (the statement only bounds when OK is allowed); it is counted");
+    rep.assume("each client sends one request at a time per connection (pipelining is outside the stated quantifier); untagged verbs (Status, QueryClustersHashes, HardStop) are in flight one at a time per hub so that worker-side requests can be attributed");
+    for k in [
+        "beh:mutating:silent",
+        "beh:mutating:failure",
+        "beh:mutating:dup_ok",
+        "beh:mutating:close",
+        "beh:mutating:late_ok",
+        "beh:mutating:unknown_id",
+        "beh:mutating:processing_then_final",
+        "beh:query:failure",
+        "beh:load_state:silent",
+        "final_ok_every_live_worker_acknowledged",
+        "final_failure_with_faulty_worker",
+        "finals_at_or_after_worker_timeout",
+        "dummy_workers_killed_by_hub",
+        "responsiveness_probe_answered",
+        "content_checks_passed",
+    ] {
+        rep.require(k);
+    }
+    let exhaustive_reps = ctx.opt_u64("reps", ctx.tier.pick(1, 6));
+    let race_cases = ctx.opt_u64("race", ctx.tier.pick(24, 240));
+    if let Some(path) = &ctx.replay {
+        let v: Value = serde_json::from_str(&fs::read_to_string(path).unwrap_or_default()).unwrap_or(Value::Null);
+        let mut c2 = ctx.clone();
+        if let Some(seed) = v["seed"].as_u64() {
+            c2.seed = seed;
+        } else if let Some(seed) = v["seed"].as_i64() {
+            c2.seed = seed as u64;
+        }
+        // the case -> scenario mapping depends on the plan sizes of the run that wrote the file
+        let file_tier_thorough = v["tier"].as_str() == Some("thorough");
+        let opt_of = |k: &str, quick: u64, thorough: u64| -> u64 {
+            v["opts"][k].as_str().and_then(|s| s.parse().ok()).unwrap_or(if file_tier_thorough { thorough } else { quick })
+        };
+        let exhaustive_reps = opt_of("reps", 1, 6);
+        let race_cases = opt_of("race", 24, 240);
+        let cases: BTreeSet<u64> = v["witnesses"].as_array().map(|a| a.iter().filter_map(|w| w["case"].as_u64()).collect()).unwrap_or_default();
+        rep.required.clear();
+        for c in cases {
+            run_case(&c2, c, (exhaustive_reps, race_cases), &mut rep);
+        }
+        return rep;
+    }
+    if ctx.opt("probe") == Some("reload_missing_path") {
+        // by-product probe, never part of a normal run (bad client input is outside C09's
+        // quantifier): does a ReloadConfiguration naming a missing file take the hub down?
+        rep.required.clear();
+        match HubLab::start(&ctx.root, 1, WORKER_TIMEOUT_S, |_| {}) {
+            Ok(mut lab) => {
+                let _workers = lab.take_workers();
+                let answer = lab.client().and_then(|mut c| c.request(RequestType::ReloadConfiguration("/nonexistent/c09.toml".into()), Duration::from_secs(3)));
+                drop(_workers);
+                let sd = lab.shutdown();
+                eprintln!("answer: {:?}\nshutdown: {sd:?}", answer.map(|(p, f)| (p.len(), f.map(|f| (f.status, f.message)))));
+                for p in sd.panics.iter().filter(|p| p.in_sozu()) {
+                    rep.violation(&format!("hub/hub_thread_died/{}", p.signature()), &format!("ReloadConfiguration of a missing file: the hub thread panicked: {} at {}", p.message, p.location), json!({"case": 0, "request": "ReloadConfiguration(\"/nonexistent/c09.toml\")"}));
+                }
+            }
+            Err(e) => rep.broken(&format!("hub lab did not start: {e}")),
+        }
+        rep.case(0, true);
+        return rep;
+    }
+    if let Some(only) = ctx.opt("only").and_then(|s| s.parse::<u64>().ok()) {
+        rep.required.clear();
+        let s = gen_scenario(ctx.seed, only, exhaustive_reps, race_cases);
+        let run = run_scenario(&ctx.root, &s);
+        if ctx.opt("print").is_some() {
+            eprintln!("{}", serde_json::to_string_pretty(&scenario_json(&s)).unwrap_or_default());
+            for (c, reqs) in run.obs.iter().enumerate() {
+                for (q, o) in reqs.iter().enumerate() {
+                    eprintln!("client {c} req {q}: {} err={:?} closed={}", msgs_json(o), o.harness_error, o.connection_closed_by_hub);
+                }
+            }
+            eprintln!("responsive: {:?}\nshutdown: {:?}\nunroutable: {:?}\nworker errors: {:?}", run.responsive, run.shutdown, run.shared.unroutable_worker_requests, run.shared.worker_errors);
+        }
+        evaluate(ctx, &s, &run, &mut rep, true);
+        rep.case(only, true);
+        return rep;
+    }
+    let sampled = ctx.opt_u64("sampled", ctx.tier.pick(260, 3000));
+    let n = exhaustive_block_len() * exhaustive_reps + OVERLAP_CASES + race_cases + sampled;
+    let mut c2 = ctx.clone();
+    c2.threads = ctx.opt_u64("par", (ctx.threads as u64 * 4).clamp(8, 96)) as usize;
+    let from = ctx.opt_u64("from", 0);
+    let n = ctx.opt_u64("to", n).min(n).saturating_sub(from);
+    par_cases(&c2, &mut rep, n, |i, r| run_case(ctx, from + i, (exhaustive_reps, race_cases), r));
+    // witnesses: the simplest scenario seen for each signature first, then up to two others
+    {
+        let best = std::mem::take(&mut *SIMPLEST.lock().unwrap_or_else(|e| e.into_inner()));
+        let others = std::mem::take(&mut rep.violations);
+        for (sig, (_, v)) in best {
+            let case = v.witness["case"].clone();
+            rep.violations.push(v);
+            rep.violations.extend(others.iter().filter(|o| o.signature == sig && o.witness["case"] != case).take(2).cloned());
+        }
+        let known: BTreeSet<String> = rep.violations.iter().map(|v| v.signature.clone()).collect();
+        rep.violations.extend(others.into_iter().filter(|o| !known.contains(&o.signature)));
+    }
+    let done = rep.observed.get("exhaustive_block_cases:W=1").copied().unwrap_or(0) + rep.observed.get("exhaustive_block_cases:W=2").copied().unwrap_or(0);
+    let complete = from == 0 && done >= exhaustive_block_len() * exhaustive_reps;
+    rep.exhaustive = Some(complete);
+    rep.set(
+        "exhaustive_subspace",
+        json!({"what": "all assignments of 8 behaviour classes to W<=2 workers on a single request, per verb family",
+            "families": FAMILY_VERBS.iter().map(|v| v.family()).collect::<Vec<_>>(),
+            "assignments_per_family": EXHAUSTIVE_PER_FAMILY, "cases_expected": exhaustive_block_len() * exhaustive_reps, "cases_run": done,
+            "complete": complete}),
+    );
     rep
 }
